@@ -319,7 +319,7 @@ class _VersionIndependentUnmarshaller:
     def t_long(self, save_ref, bytes_for_s=False):
         n = unpack("<i", self.fp.read(4))[0]
         if n == 0:
-            return self.long_type(0)
+            return self.r_ref(self.long_type(0), save_ref)
         size = abs(n)
         d = self.long_type(0)
         for j in range(0, size):
